@@ -27,7 +27,8 @@ def gen_program(rng, devs):
     dev = rng.choice(DEVS)
     info = devs[dev]
     lines = ['.device %s' % dev] if dev else []
-    lines += ['.macro c02nop', '  nop', '.endm', '.macro c02pair', '  nop', '  .db 7', '.endm']      # one-word and two-word expansions between labels
+    lines += ['.macro c02nop', '  nop', '.endm', '.macro c02pair', '  nop', '  .db 7', '.endm',      # one-word and two-word expansions between labels
+              '.macro c02at', '  .org @0', '  .dw 0x1234', '.endm']    # a body that BEGINS with an .org
     off = {'c': 0, 'd': info['ram_start'], 'e': 0}
     code, ee = {}, {}          # address(byte) -> byte
     labels = {}
@@ -88,7 +89,12 @@ def gen_program(rng, devs):
                         reqs.append((2 * off['c'], two, off['c'], ['v%d' % a], 0)); off['c'] += 2
                 elif r < .72:
                     # macro calls: the expansion's items land like written items (1 word; 1 word + a padded .db)
-                    if rng.random() < .6:
+                    kk = rng.random()
+                    if kk < .3 and off['c'] > 0:
+                        tgt = off['c'] + rng.choice([0, 1, 2, 8])
+                        lines.append('  c02at %s' % rng.choice(['%d', '0x%x']) % tgt)
+                        code[2 * tgt] = 0x34; code[2 * tgt + 1] = 0x12; off['c'] = tgt + 1
+                    elif kk < .7:
                         lines.append('  c02nop'); reqs.append((2 * off['c'], 'nop', off['c'], [], 0)); off['c'] += 1
                     else:
                         lines.append('  C02PAIR'); reqs.append((2 * off['c'], 'nop', off['c'], [], 0)); off['c'] += 1
@@ -207,7 +213,7 @@ def run(tier, seed, model_ok):
             dis.append({'source': dict((('k0', KNOWN_PROBES[0][0]), ('k1', KNOWN_PROBES[1][0])))[k], 'impl': impl.get(k, '')[:100], 'model': model.get(k, '')[:100]})
     return {
         'evaluations': len(progs) + 2, 'distinct_nontrivial': len({p['src'] for p in progs}),
-        'rule': 'seeded random programs: 1..6 blocks over .cseg/.dseg/.eseg with optional .org (0..16 units past the running offset, literal/hex/expression), labels in every segment (three letter cases), 1-word and 2-word instructions (lds/sts one word on the reduced core), .db with odd/even counts and strings incl. empty/non-ASCII, .dw/.dd/.dq, .byte, six device choices, and a trailing .dw table of all labels; programs exceeding a capacity are dropped; plus the exact inputs of the two recorded findings; distinct = distinct programs',
+        'rule': 'seeded random programs: 1..6 blocks over .cseg/.dseg/.eseg with optional .org (also as the FIRST line of a macro body, the target passed as argument) (0..16 units past the running offset, literal/hex/expression), labels in every segment (three letter cases), 1-word and 2-word instructions (lds/sts one word on the reduced core), .db with odd/even counts and strings incl. empty/non-ASCII, .dw/.dd/.dq, .byte, six device choices, and a trailing .dw table of all labels; programs exceeding a capacity are dropped; plus the exact inputs of the two recorded findings; distinct = distinct programs',
         'samples': [progs[0]['src'], progs[1]['src']],
         'exhaustive': False,
         'distribution': {'programs': len(progs), 'devices': Counter(str(p['dev']) for p in progs).most_common(), 'with_labels': sum(1 for p in progs if '.dw L' in p['src'] or '.dw l' in p['src'])},
